@@ -15,6 +15,8 @@ def rebuild(route, q, cls):
     return type(q).from_config(copy.deepcopy(q.get_config()))
   if route == "get_quantizer_dict":
     return Q.get_quantizer({"class_name": cls, "config": copy.deepcopy(q.get_config())})
+  if route == "str":
+    return Q.get_quantizer(str(q))
   if route == "serialize_deserialize":
     from qkeras.utils import _add_supported_quantized_objects
     co = {}
@@ -68,7 +70,45 @@ def omitted_keys(cls, kw, q):
   return sorted(k for k in kw if k not in cfg)
 
 
-def one(run, cls, kw, idx, rng, phases):
+def culprit(cls, kw, route, phase, x):
+  """Which option is responsible?  Smallest sets of non-base options (singles, then pairs) whose configuration still fails
+  on the witness / probe tensors.  Identifies the call-site class of a finding precisely."""
+  import itertools
+  base = qlattice.BASE[cls]
+  extra = sorted(k for k in kw if k not in base or base[k] != kw[k])
+  shape = qlattice.shape_for(cls, kw)
+  rs = np.random.RandomState(99)
+  xs = [np.asarray(x, dtype=np.float32).reshape(shape)] if x is not None else []
+  xs += [(rs.randn(*shape) * s).astype(np.float32) if shape else np.float32(rs.randn() * s) for s in (0.3, 1.0, 4.0, 20.0)]
+  xs += [np.full(shape, v, dtype=np.float32) for v in (0.3, -0.7, 3.0, -30.0)]
+
+  def fails(k2):
+    try:
+      qz.set_learning_phase(phase)
+      q = qz.make(cls, k2)
+      q2 = rebuild(route, q, cls)
+      for xv in xs:
+        if qlattice.shape_for(cls, k2) != shape:
+          xv = np.asarray(xv).reshape(-1)[:1].reshape(()) if not qlattice.shape_for(cls, k2) else xv
+        if differs(*eager_pair(q, q2, np.asarray(xv, dtype=np.float32))):
+          return True
+    except Exception:  # pylint: disable=broad-except
+      return True
+    return False
+
+  for r_ in (1, 2):
+    hits = []
+    for ks in itertools.combinations(extra, r_):
+      k2 = dict(base)
+      k2.update({k: kw[k] for k in ks})
+      if qlattice.compatible(cls, k2) and fails(k2):
+        hits.append("+".join(ks))
+    if hits:
+      return hits[0]
+  return "+".join(extra)
+
+
+def one(run, cls, kw, idx, rng, phases, routes=ROUTES):
   cfg = qz.cfg_str(cls, kw)
   shape = qlattice.shape_for(cls, kw)
   for phase in phases:
@@ -78,7 +118,7 @@ def one(run, cls, kw, idx, rng, phases):
     except Exception as e:  # pylint: disable=broad-except
       run.inconclusive_("cannot construct %s: %r" % (cfg, e))
       return
-    for route in ROUTES:
+    for route in routes:
       oid = "%03d_%s_p%d" % (idx, route, phase)
       meta = dict(cls=cls, kw=kw, route=route, phase=phase, shape=list(shape))
       try:
@@ -100,8 +140,12 @@ def one(run, cls, kw, idx, rng, phases):
           x[i] = np.float32(w.get(n, 0.0))
         x = x.reshape(shape)
         qz.set_learning_phase(phase)
-        ra, rb = eager_pair(q, q2, x)
-        why = differs(ra, rb)
+        # random draws are shared symbolic values in the encoding; on the real objects several seeds are tried
+        for sd in ((7, 11, 13, 17, 19, 23) if phase else (7,)):
+          ra, rb = eager_pair(q, q2, x, seed=sd)
+          why = differs(ra, rb)
+          if why:
+            break
         return why is not None, dict(x=x.tolist(), why=why, out=ra[0].tolist(), out_rebuilt=rb[0].tolist(),
                                      scale=None if ra[1] is None else ra[1].tolist(), scale_rebuilt=None if rb[1] is None else rb[1].tolist())
 
@@ -117,7 +161,7 @@ def one(run, cls, kw, idx, rng, phases):
         why = differs(*eager_pair(q, q2, np.asarray(x, dtype=np.float32)))
         run.concrete_checks += 1
         if why:
-          run.violation(dict(clause="function", route=route, cls=cls, omitted=",".join(omitted_keys(cls, kw, q))), dict(cfg=cfg, why=why, x=np.asarray(x).tolist()),
+          run.violation(dict(clause="function", route=route, cls=cls, culprit=culprit(cls, kw, route, phase, np.asarray(x).tolist())), dict(cfg=cfg, why=why, x=np.asarray(x).tolist()),
                         dict(clause="function", cls=cls, kw=kw, route=route, phase=phase, x=np.asarray(x).tolist()))
         continue
       if len(ta.outputs) != len(tb.outputs):
@@ -132,17 +176,21 @@ def one(run, cls, kw, idx, rng, phases):
       dom = [qz.finite_normal(x) for x in inputs] + [qz.abs_lt(x, 2.0 ** 20) for x in inputs]
       if shape:
         dom += [ir.L("(or (fp.isZero {0}) (fp.geq (fp.abs {0}) %s))" % ir.fp_lit(2.0 ** -20), x) for x in inputs]
-      v = equiv.decide(run, oid, b, outsA, outsB, inputs, dom, confirm, meta, fp=False)
+      names = [n.attr for n in inputs]
+      prs = np.random.RandomState(1234)
+      probes = [dict(zip(names, vals)) for vals in ([0.3] * len(names), [-0.7] * len(names), [3.0] * len(names), [-30.0] * len(names))]
+      probes += [dict(zip(names, (prs.randn(len(names)) * s).astype(np.float32).tolist())) for s in (0.05, 0.5, 0.5, 2.0, 2.0, 8.0, 64.0)]
+      v = equiv.decide(run, oid, b, outsA, outsB, inputs, dom, confirm, meta, fp=False, probes=probes)
       if v.kind == "inconclusive":
         # exact miter, discharged later on the pool together with all the others
         run.obls.pop()
         res_smt = equiv.fp_miter_text(b, outsA, outsB, dom)
         o = run.add(oid, res_smt, meta=meta, timeout=600 if run.quick() else 1800)
-        o.confirm, o.sig = confirm, dict(clause="function", route=route, cls=cls, omitted=",".join(omitted_keys(cls, kw, q)))
+        o.confirm, o.sig = confirm, dict(clause="function", route=route, cls=cls, culprit="?")
         o.cfg, o.inputs = cfg, [n.attr for n in inputs]
         continue
       if v.kind == "different":
-        run.violation(dict(clause="function", route=route, cls=cls, omitted=",".join(omitted_keys(cls, kw, q))), dict(cfg=cfg, how=v.how, **v.detail),
+        run.violation(dict(clause="function", route=route, cls=cls, culprit=culprit(cls, kw, route, phase, v.detail.get("x"))), dict(cfg=cfg, how=v.how, **v.detail),
                       dict(clause="function", cls=cls, kw=kw, route=route, phase=phase, x=v.detail.get("x")))
       elif v.kind == "inconclusive":
         run.inconclusive_("%s %s: %s" % (cfg, route, v.how))
@@ -218,6 +266,7 @@ def run(tier, seed):
       qz.set_learning_phase(o.meta.get("phase", 0))
       ok, detail = o.confirm(w)
       if ok:
+        o.sig["culprit"] = culprit(o.meta["cls"], o.meta["kw"], o.meta["route"], o.meta.get("phase", 0), detail.get("x"))
         r.violation(o.sig, dict(cfg=o.cfg, how="fp-miter", **detail), dict(clause="function", cls=o.meta["cls"], kw=o.meta["kw"], route=o.meta["route"],
                                                                         phase=o.meta.get("phase", 0), x=detail.get("x")))
       else:
